@@ -117,6 +117,16 @@ def materialise(case, d):
         with open(os.path.join(d, "joined.xz"), "wb") as fh:
             fh.write(joined)
         orig["joined.xz"] = joined
+    for sp in case.get("specials", []):
+        p4 = os.path.join(d, sp["name"])
+        if sp["kind"] == "dir":
+            os.mkdir(p4)
+        elif sp["kind"] == "fifo":
+            os.mkfifo(p4)
+    for f in case["files"]:
+        if f.get("owner"):
+            os.chown(os.path.join(d, f["name"]), f["owner"][0], f["owner"][1])
+            os.chmod(os.path.join(d, f["name"]), f.get("mode", 0o644))   # chown clears setuid/setgid
     for l in case.get("links", []):
         if l["kind"] == "sym":
             os.symlink(l["target"], os.path.join(d, l["name"]))
@@ -193,6 +203,29 @@ def execute(case):
                 stdout.close()
             if hasattr(stdin, "close"):
                 stdin.close()
+        step2 = None
+        if case.get("then") is not None and rc != -999:
+            def snap():
+                t = {}
+                for name in sorted(os.listdir(wd)):
+                    p3 = os.path.join(wd, name)
+                    if name == "_stdout":
+                        continue
+                    st3 = os.lstat(p3)
+                    t[name] = {"mode": st3.st_mode, "size": st3.st_size, "nlink": st3.st_nlink, "mtime": int(st3.st_mtime), "uid": st3.st_uid, "gid": st3.st_gid}
+                    if os.path.isfile(p3) and not os.path.islink(p3):
+                        t[name]["data"] = open(p3, "rb").read()
+                return t
+            tree1 = snap()
+            env2 = dict(env)
+            env2["XZSIM_PLAN"] = "/dev/null"
+            env2["XZSIM_LOG"] = logp + "2"
+            try:
+                p2 = subprocess.run([tool(case.get("tool", "xz"), case.get("shim", True))] + case["then"], cwd=wd, env=env2, stdin=subprocess.DEVNULL,
+                                    stdout=subprocess.PIPE, stderr=subprocess.PIPE, timeout=60)
+                step2 = {"rc": p2.returncode, "stderr": p2.stderr.decode("utf-8", "replace"), "tree1": tree1}
+            except subprocess.TimeoutExpired:
+                step2 = {"rc": -999, "stderr": "[timeout]", "tree1": tree1}
         if so != "pipe":
             out = open(outp, "rb").read()
             if so in ("file_append", "file_offset"):
@@ -216,7 +249,7 @@ def execute(case):
                 ent["data"] = open(p2, "rb").read()
             tree[name] = ent
         events = parse_log(logp)
-        return {"rc": rc, "stdout": out or b"", "stderr": err.decode("utf-8", "replace"), "events": events, "tree": tree, "orig": orig,
+        return {"step2": step2, "rc": rc, "stdout": out or b"", "stderr": err.decode("utf-8", "replace"), "events": events, "tree": tree, "orig": orig,
                 "wall": time.time() - t0, "out_size": out_size, "prefix_len": len(prefix)}
     finally:
         shutil.rmtree(d, ignore_errors=True)
